@@ -201,10 +201,14 @@ func (m *msgGen) next(t *rapid.T) string {
 		return ""
 	}
 	m.n++
-	if mode == 1 {
-		return fmt.Sprintf("|m%d", m.n)
+	long := ""
+	if rapid.IntRange(0, 11).Draw(t, "longMsg") == 0 {
+		long = " " + strings.Repeat("long message text ", 5) // rule texts beyond 64 / 100 bytes
 	}
-	return fmt.Sprintf("|说%d", m.n)
+	if mode == 1 {
+		return fmt.Sprintf("|m%d%s", m.n, long)
+	}
+	return fmt.Sprintf("|说%d%s", m.n, long)
 }
 
 func safeOpt(s string) bool {
